@@ -251,6 +251,8 @@ func (ex *Exec) callVF(caller *frame, fn *ssa.Function, args []Value) (Value, bo
 			return v, true
 		}
 		return smt.BVC(64, 0), true
+	case "Pause":
+		return nil, true // native replay only: the observing thread waits a random moment
 	case "Track":
 		if ex.accessLog == nil {
 			ex.accessLog = &AccessLog{}
